@@ -36,4 +36,5 @@ def jobs(tier):
         J.append(j)
     if not q: ch('chan_1p1c', 2, 4, ['NPROD=1', 'KSEND=1', 'NRECV=1'], desc='RingChannel: 1 send, 1 recv on different vCPUs (consumer idle registration vs. producer idler check)', timeout=3000, mem_gb=16)
     if not q: ch('chan_full_1p1c', 2, 4, ['NPROD=1', 'KSEND=1', 'NRECV=1', 'PREFILL=2', 'PROCESS_YIELD'], desc='RingChannel: full ring, 1 blocked send, 1 recv that then processes the element (sender notification)', timeout=3000, mem_gb=16)
+    if not q: ch('chan_burst_1p1c', 2, 4, ['NPROD=1', 'KSEND=3', 'NRECV=1', 'PROCESS_YIELD'], desc='RingChannel capacity 2: a burst of 3 sends against a consumer in its slow path (the third send parks; sender notification after a slow-path pop)', timeout=4000, mem_gb=20)
     return J
